@@ -840,3 +840,469 @@ Example reader_reassembles_encoder_output :
   | _ => False
   end.
 Proof. vm_compute. split; reflexivity. Qed.
+
+
+(* ---------------------------------------------------------------------------------------- *)
+(* no panic, no fuel exhaustion: what the length-delimited layer hands to decode_frame always has
+   its 9 octet head *)
+
+Definition ld_ok (s : ld_state) : Prop := match s with LdHead => True | LdData n => 9 <= n end.
+
+Definition clean_event {HS} (e : event HS) : Prop :=
+  match e with EvPanic => False | EvOutOfFuel => False | _ => True end.
+
+Lemma ld_decode_ok max s buf :
+  ld_ok s ->
+  match ld_decode max s buf with
+  | LdNeed s' => ld_ok s'
+  | LdOut fr rest => (9 <= length fr)%nat
+  | LdError => True
+  end.
+Proof.
+  intros Hs.
+  assert (Hd : forall n, 9 <= n ->
+            match ld_data n buf with LdNeed s' => ld_ok s' | LdOut fr rest => (9 <= length fr)%nat | LdError => True end).
+  { intros n Hn. unfold ld_data. destruct (lenN buf <? n) eqn:E; [exact Hn|]. apply N.ltb_ge in E.
+    pose proof (FrameCodecProofs.lenN_takeN n buf) as Hl. unfold lenN in *. lia. }
+  unfold ld_decode. destruct s as [|n]; [|apply Hd, Hs].
+  destruct buf as [|l0 [|l1 [|l2 r]]]; try exact I.
+  destruct (max <? _); [exact I|]. apply Hd. unfold ld_length_adjustment. lia.
+Qed.
+
+Lemma decode_frame_no_panic {HS} (ops : hpack_ops HS) mh mc pt hs bytes :
+  (9 <= length bytes)%nat ->
+  match snd (decode_frame ops mh mc pt hs bytes) with
+  | DEvent e => clean_event e
+  | DStop e => clean_event e
+  | DNone => True
+  end.
+Proof.
+  intros H9. unfold decode_frame.
+  destruct (parse_head bytes) as [[h payload]|] eqn:E.
+  2:{ destruct bytes as [|l0 [|l1 [|l2 [|k [|fl [|s0 [|s1 [|s2 [|s3 p]]]]]]]]]; cbn [length] in H9; try lia. discriminate. }
+  destruct (_ && _); [exact I|].
+  pose proof (load_frame_never_panics bytes) as Hnp.
+  assert (H9' : 9 <= lenN bytes) by (unfold lenN; lia). specialize (Hnp H9').
+  assert (Hnf : load_frame bytes <> PErrFrameSize /\ load_frame bytes <> PNotOneFrame).
+  { unfold load_frame. rewrite E. split; destruct (kind_new (h_kind h)); cbn [h_sid];
+      try (destruct (_ =? 0)); try discriminate;
+      match goal with |- lift _ _ ?r <> _ => destruct r; discriminate end. }
+  destruct Hnf as [Hn1 Hn2].
+  destruct (load_frame bytes) as [l|k sid e| | | |]; try congruence; try exact I.
+  - destruct l as [f|sid eoh frag|]; [| |exact I].
+    + destruct (is_header_frame f); [|exact I].
+      destruct (hp_load ops mh (hp_begin ops hs) (frame_block f)) as [[oc rest] hs2].
+      destruct oc; cbn [hpack_verdict]; try exact I;
+        destruct (has_bit (frame_flags f) headers_END_HEADERS); exact I.
+    + destruct pt as [p|]; [|exact I].
+      destruct (negb (frame_sid (pt_frame p) =? sid)); [exact I|].
+      destruct (negb eoh && (mc <? pt_count p + 1)); [exact I|].
+      destruct (_ && _); [exact I|].
+      destruct (hp_load ops mh hs (pt_buf p ++ frag)) as [[oc rest] hs2].
+      destruct oc; cbn [hpack_verdict]; try exact I; destruct eoh; exact I.
+  - unfold load_error_event. destruct e, k; exact I.
+Qed.
+
+Theorem drain_clean {HS} (ops : hpack_ops HS) : forall n (st : rstate HS),
+  (length (r_buf st) <= n)%nat -> ld_ok (r_ld st) ->
+  Forall clean_event (snd (drain ops st)) /\ ld_ok (r_ld (fst (drain ops st))).
+Proof.
+  induction n as [|n IH]; intros st Hn Hl; rewrite run_unfold.
+  all: destruct (r_dead st); [cbn [fst snd]; auto|].
+  all: pose proof (ld_decode_ok (r_max_frame st) (r_ld st) (r_buf st) Hl) as Hok.
+  all: destruct (ld_decode (r_max_frame st) (r_ld st) (r_buf st)) as [s|fr rest|] eqn:El.
+  all: try (cbn [fst snd r_ld set_core]; split; [repeat constructor | assumption]).
+  all: pose proof (decode_frame_no_panic ops (r_max_hls st) (r_max_cont st) (r_partial st) (r_hs st) fr Hok) as Hc.
+  all: destruct (decode_frame ops (r_max_hls st) (r_max_cont st) (r_partial st) (r_hs st) fr) as [[pt hs] d] eqn:Ed.
+  all: cbn [snd] in Hc.
+  all: pose proof (ld_decode_out_len _ _ _ _ _ El) as Hlen.
+  - destruct d as [|e|e].
+    + rewrite <- Hlen, app_length in Hn. lia.
+    + rewrite <- Hlen, app_length in Hn. lia.
+    + cbn [fst snd r_ld set_core]. split; [constructor; [exact Hc | constructor] | exact I].
+  - assert (Hrest : (length rest <= n)%nat) by (rewrite <- Hlen, app_length in Hn; lia).
+    destruct d as [|e|e].
+    + apply IH; [exact Hrest | exact I].
+    + destruct (IH (set_core st rest LdHead pt hs false) Hrest I) as [Ha Hb].
+      destruct (drain ops (set_core st rest LdHead pt hs false)) as [st' evs]. cbn [fst snd] in *.
+      split; [constructor; assumption | exact Hb].
+    + cbn [fst snd r_ld set_core]. split; [constructor; [exact Hc | constructor] | exact I].
+Qed.
+
+(* from the initial state, under any chunking and any HPACK instance, the reader never reaches a
+   Rust panic (slice index, assert) and the model never runs out of fuel *)
+Theorem reader_never_panics {HS} (ops : hpack_ops HS) hs0 max_frame max_hls : forall chunks,
+  Forall clean_event (snd (feed_all ops (rinit hs0 max_frame max_hls) chunks)).
+Proof.
+  assert (H : forall chunks (st : rstate HS), ld_ok (r_ld st) ->
+            Forall clean_event (snd (feed_all ops st chunks)) /\ ld_ok (r_ld (fst (feed_all ops st chunks)))).
+  { induction chunks as [|c cs IH]; intros st Hl; [cbn [feed_all fst snd]; auto|].
+    cbn [feed_all]. rewrite feed_run.
+    destruct (drain_clean ops (length (r_buf (with_buf st (r_buf st ++ c)))) (with_buf st (r_buf st ++ c)) (Nat.le_refl _))
+      as [Ha Hb].
+    { destruct st as [buf0 ld0 mf0 mh0 mc0 pt0 hs1 dead0]. exact Hl. }
+    destruct (drain ops (with_buf st (r_buf st ++ c))) as [s1 e1]. cbn [fst snd] in *.
+    destruct (IH s1 Hb) as [Hc Hd]. destruct (feed_all ops s1 cs) as [s2 e2]. cbn [fst snd] in *.
+    split; [apply Forall_app; split; assumption | exact Hd]. }
+  intros chunks. apply H. exact I.
+Qed.
+
+
+(* ---------------------------------------------------------------------------------------- *)
+(* the model's own reader on what the model's encoder wrote (raw header blocks) *)
+
+Lemma load_frame_encoded k fl sid payload :
+  k < 256 -> fl < 256 -> sid < 2147483648 ->
+  load_frame (head_encode k fl sid (lenN payload) ++ payload) = dispatch (mk_head k fl sid) payload.
+Proof.
+  intros Hk Hf Hs. unfold head_encode, enc_u24, enc_u32. cbn [app]. unfold load_frame. cbn [parse_head].
+  assert (E3 : fst (parse_sid ((sid / 16777216) mod 256) ((sid / 65536) mod 256) ((sid / 256) mod 256) (sid mod 256)) = sid).
+  { unfold parse_sid, dec_u32, STREAM_ID_MASK. cbn [fst]. lia. }
+  rewrite E3. rewrite (N.mod_small k 256 Hk), (N.mod_small fl 256 Hf). reflexivity.
+Qed.
+
+Lemma parse_head_encoded k fl sid len payload :
+  k < 256 -> fl < 256 -> sid < 2147483648 ->
+  parse_head (head_encode k fl sid len ++ payload) = Some (mk_head k fl sid, payload).
+Proof.
+  intros Hk Hf Hs. unfold head_encode, enc_u24, enc_u32. cbn [app parse_head].
+  assert (E3 : fst (parse_sid ((sid / 16777216) mod 256) ((sid / 65536) mod 256) ((sid / 256) mod 256) (sid mod 256)) = sid).
+  { unfold parse_sid, dec_u32, STREAM_ID_MASK. cbn [fst]. lia. }
+  rewrite E3. rewrite (N.mod_small k 256 Hk), (N.mod_small fl 256 Hf). reflexivity.
+Qed.
+
+(* one complete frame at the front of the buffer is handed to decode_frame *)
+Lemma drain_one_frame {HS} (ops : hpack_ops HS) (st : rstate HS) k fl sid p more :
+  r_dead st = false -> r_ld st = LdHead ->
+  r_buf st = (head_encode k fl sid (lenN p) ++ p) ++ more ->
+  lenN p <= r_max_frame st -> lenN p < 16777216 ->
+  drain ops st =
+    let '(pt, hs, d) := decode_frame ops (r_max_hls st) (r_max_cont st) (r_partial st) (r_hs st)
+                                     (head_encode k fl sid (lenN p) ++ p) in
+    match d with
+    | DNone => drain ops (set_core st more LdHead pt hs false)
+    | DEvent e => let (st', evs) := drain ops (set_core st more LdHead pt hs false) in (st', e :: evs)
+    | DStop e => (set_core st more LdHead pt hs true, [e])
+    end.
+Proof.
+  intros Hd Hl Hb Hmax H24. rewrite run_unfold, Hd, Hl, Hb.
+  set (fr := head_encode k fl sid (lenN p) ++ p).
+  assert (Hfl : lenN fr = lenN p + 9).
+  { unfold fr. rewrite FrameCodecProofs.lenN_app, lenN_head_encode. lia. }
+  assert (Hld : ld_decode (r_max_frame st) LdHead (fr ++ more) = LdOut fr more).
+  { unfold fr at 1, head_encode, enc_u24. cbn [app ld_decode].
+    assert (E1 : ((lenN p / 65536) mod 256 * 256 + (lenN p / 256) mod 256) * 256 + lenN p mod 256 = lenN p) by lia.
+    rewrite E1. destruct (r_max_frame st <? lenN p) eqn:E; [apply N.ltb_lt in E; lia|].
+    unfold ld_data, ld_length_adjustment.
+    match goal with |- context [lenN ?l <? _] => change l with (fr ++ more) end.
+    rewrite FrameCodecProofs.lenN_app, Hfl.
+    destruct (lenN p + 9 + lenN more <? lenN p + 9) eqn:E2; [apply N.ltb_lt in E2; lia|].
+    match goal with |- LdOut (takeN _ ?l) _ = _ => change l with (fr ++ more) end.
+    rewrite <- Hfl. rewrite FrameCodecProofs.takeN_app_exact, FrameCodecProofs.dropN_app_exact. reflexivity. }
+  rewrite Hld. reflexivity.
+Qed.
+
+Lemma headers_load_plain k fl sid p :
+  sid <> 0 -> (fl = 0 \/ fl = 1 \/ fl = 4 \/ fl = 5) ->
+  headers_load (mk_head k fl sid) p = Ok (FHeaders sid fl None p).
+Proof.
+  intros Hs Hfl. unfold headers_load. cbn [mk_head h_sid h_flag].
+  apply N.eqb_neq in Hs. rewrite Hs.
+  destruct Hfl as [ -> | [ -> | [ -> | -> ]]];
+    (change (has_bit _ headers_PADDED) with false; change (has_bit _ headers_PRIORITY) with false;
+     cbn [bind]; change (0 <? 0) with false; cbn [bind]; reflexivity).
+Qed.
+
+Lemma push_promise_load_plain k fl sid promised p :
+  sid <> 0 -> promised < 2147483648 -> (fl = 0 \/ fl = 4) -> lenN p <> 0 ->
+  push_promise_load (mk_head k fl sid) (enc_u32 promised ++ p) = Ok (FPushPromise sid fl promised p).
+Proof.
+  intros Hs Hp Hfl Hne. unfold push_promise_load. cbn [mk_head h_sid h_flag].
+  apply N.eqb_neq in Hs. rewrite Hs.
+  assert (Hl : lenN (enc_u32 promised ++ p) = 4 + lenN p) by (rewrite FrameCodecProofs.lenN_app; reflexivity).
+  destruct Hfl as [ -> | -> ];
+    (change (has_bit _ headers_PADDED) with false; cbn [bind];
+     destruct (lenN (enc_u32 promised ++ p) <? 5) eqn:E5; [apply N.ltb_lt in E5; lia|];
+     unfold enc_u32; cbn [app]; change (0 <? 0) with false; cbn [bind];
+     assert (Hp' : fst (parse_sid ((promised / 16777216) mod 256) ((promised / 65536) mod 256)
+                                  ((promised / 256) mod 256) (promised mod 256)) = promised)
+       by (unfold parse_sid, dec_u32, STREAM_ID_MASK; cbn [fst]; lia);
+     rewrite Hp'; reflexivity).
+Qed.
+
+(* decode_frame, raw instance: the opening frame of a split block *)
+Lemma decode_open_headers mh mc acc0 fl sid part :
+  sid <> 0 -> sid < 2147483648 -> (fl = 0 \/ fl = 1) ->
+  decode_frame hp_raw mh mc None acc0 (head_encode kind_headers fl sid (lenN part) ++ part) =
+    (Some {| pt_frame := FHeaders sid fl None []; pt_buf := []; pt_count := 0 |}, part, DNone).
+Proof.
+  intros Hs Hs31 Hfl. unfold decode_frame, kind_headers.
+  assert (Hf256 : fl < 256) by (destruct Hfl; subst; lia).
+  rewrite parse_head_encoded by lia. cbn [mk_head h_kind]. change (kind_new 1) with KHeaders. cbn [andb].
+  rewrite load_frame_encoded by lia. unfold dispatch. cbn [mk_head h_kind h_sid]. change (kind_new 1) with KHeaders.
+  cbv iota. rewrite headers_load_plain by (auto; destruct Hfl; auto).
+  cbn [lift is_header_frame frame_flags frame_block hp_raw hp_load hp_begin app].
+  destruct Hfl as [-> | ->]; (change (has_bit _ headers_END_HEADERS) with false; cbn [hpack_verdict strip_block]; reflexivity).
+Qed.
+
+Lemma decode_open_push_promise mh mc acc0 sid promised part :
+  sid <> 0 -> sid < 2147483648 -> promised < 2147483648 -> lenN part <> 0 ->
+  decode_frame hp_raw mh mc None acc0
+    (head_encode kind_push_promise 0 sid (lenN (enc_u32 promised ++ part)) ++ enc_u32 promised ++ part) =
+    (Some {| pt_frame := FPushPromise sid 0 promised []; pt_buf := []; pt_count := 0 |}, part, DNone).
+Proof.
+  intros Hs Hs31 Hp Hne. unfold decode_frame, kind_push_promise.
+  rewrite parse_head_encoded by lia. cbn [mk_head h_kind]. change (kind_new 5) with KPushPromise. cbn [andb].
+  rewrite load_frame_encoded by lia. unfold dispatch. cbn [mk_head h_kind h_sid]. change (kind_new 5) with KPushPromise.
+  cbv iota. rewrite push_promise_load_plain by auto.
+  cbn [lift is_header_frame frame_flags frame_block hp_raw hp_load hp_begin app].
+  change (has_bit 0 headers_END_HEADERS) with false. cbn [hpack_verdict strip_block]. reflexivity.
+Qed.
+
+(* ... and its CONTINUATION frames *)
+Lemma decode_continuation mh mc p acc fl sid frag :
+  sid <> 0 -> sid < 2147483648 -> frame_sid (pt_frame p) = sid -> pt_buf p = [] ->
+  (fl = 0 \/ fl = 4) -> (fl = 0 -> pt_count p + 1 <= mc) ->
+  decode_frame hp_raw mh mc (Some p) acc (head_encode kind_continuation fl sid (lenN frag) ++ frag) =
+    if fl =? 0
+    then (Some {| pt_frame := pt_frame p; pt_buf := []; pt_count := pt_count p + 1 |}, acc ++ frag, DNone)
+    else (None, acc ++ frag, DEvent (EvHeaders (set_end_headers (pt_frame p)) (acc ++ frag))).
+Proof.
+  intros Hs Hs31 Hsid Hbuf Hfl Hcnt. unfold decode_frame, kind_continuation.
+  assert (Hf256 : fl < 256) by (destruct Hfl; subst; lia).
+  rewrite parse_head_encoded by lia. cbn [mk_head h_kind]. change (kind_new 9) with KContinuation. cbn [andb negb].
+  rewrite load_frame_encoded by lia. unfold dispatch. cbn [mk_head h_kind h_sid h_flag]. change (kind_new 9) with KContinuation.
+  cbv iota. rewrite Hsid, N.eqb_refl, Hbuf. cbn [negb lenN length]. change (N.of_nat 0 =? 0) with true. cbn [negb andb].
+  cbn [hp_raw hp_load hp_over app].
+  destruct Hfl as [-> | ->].
+  - change (has_bit 0 continuation_END_HEADERS) with false. cbn [negb andb].
+    destruct (mc <? pt_count p + 1) eqn:E; [apply N.ltb_lt in E; specialize (Hcnt eq_refl); lia|].
+    cbn [hpack_verdict]. reflexivity.
+  - change (has_bit 4 continuation_END_HEADERS) with true. cbn [negb andb hpack_verdict]. reflexivity.
+Qed.
+
+Lemma set_core_twice {HS} (st : rstate HS) b1 l1 p1 h1 d1 b2 l2 p2 h2 d2 :
+  set_core (set_core st b1 l1 p1 h1 d1) b2 l2 p2 h2 d2 = set_core st b2 l2 p2 h2 d2.
+Proof. reflexivity. Qed.
+
+Lemma cont_frames_nonempty fuel max sid rest : (0 < fuel)%nat -> cont_frames fuel max sid rest <> [].
+Proof. destruct fuel; [lia|]. intros _. cbn [cont_frames]. destruct (max <? lenN rest); discriminate. Qed.
+
+Lemma drain_continuations smax sid :
+  1 <= smax -> smax <= MAX_MAX_FRAME_SIZE -> sid <> 0 -> sid < 2147483648 ->
+  forall fuel rest (st : rstate (list N)) F0 acc cnt more,
+    (length rest < fuel)%nat -> smax <= r_max_frame st ->
+    r_dead st = false -> r_ld st = LdHead ->
+    r_buf st = concat (cont_frames fuel smax sid rest) ++ more ->
+    r_partial st = Some {| pt_frame := F0; pt_buf := []; pt_count := cnt |} ->
+    frame_sid F0 = sid -> r_hs st = acc ->
+    cnt + N.of_nat (length (cont_frames fuel smax sid rest)) <= r_max_cont st + 1 ->
+    drain hp_raw st =
+      let (s', evs) := drain hp_raw (set_core st more LdHead None (acc ++ rest) false) in
+      (s', EvHeaders (set_end_headers F0) (acc ++ rest) :: evs).
+Proof.
+  intros H1 H2 Hs0 Hs31. pose proof H2 as H2'. unfold MAX_MAX_FRAME_SIZE in H2'.
+  induction fuel as [|fuel IH]; intros rest st F0 acc cnt more Hf Hmax Hd Hl Hb Hp Hsid Hhs Hcnt; [lia|].
+  cbn [cont_frames] in Hb, Hcnt.
+  destruct (smax <? lenN rest) eqn:E.
+  - apply N.ltb_lt in E. pose proof (length_dropN_lt smax rest H1 E) as Hlt.
+    assert (Hlt' : lenN (takeN smax rest) = smax) by (rewrite FrameCodecProofs.lenN_takeN; lia).
+    cbn [concat] in Hb. rewrite <- app_assoc in Hb. rewrite <- Hlt' in Hb at 1.
+    cbn [length] in Hcnt.
+    pose proof (cont_frames_nonempty fuel smax sid (dropN smax rest) ltac:(lia)) as Hne.
+    assert (Hlen1 : 1 <= N.of_nat (length (cont_frames fuel smax sid (dropN smax rest)))).
+    { destruct (cont_frames fuel smax sid (dropN smax rest)); [congruence | cbn [length]; lia]. }
+    rewrite (drain_one_frame hp_raw st kind_continuation 0 sid (takeN smax rest) _ Hd Hl Hb) by lia.
+    rewrite Hp, Hhs.
+    rewrite (decode_continuation (r_max_hls st) (r_max_cont st) _ acc 0 sid (takeN smax rest) Hs0 Hs31)
+      by (cbn [pt_frame pt_buf pt_count]; auto; intros; lia).
+    change (0 =? 0) with true. cbv iota. cbn [pt_frame pt_count].
+    rewrite (IH (dropN smax rest) _ F0 (acc ++ takeN smax rest) (cnt + 1) more); try reflexivity; try assumption.
+    + rewrite set_core_twice. rewrite <- app_assoc, FrameCodecProofs.takeN_dropN. reflexivity.
+    + lia.
+    + cbn [r_max_cont set_core]. lia.
+  - apply N.ltb_ge in E. cbn [concat] in Hb. rewrite app_nil_r in Hb.
+    rewrite (drain_one_frame hp_raw st kind_continuation headers_END_HEADERS sid rest _ Hd Hl Hb) by lia.
+    rewrite Hp, Hhs. unfold headers_END_HEADERS.
+    rewrite (decode_continuation (r_max_hls st) (r_max_cont st) _ acc 4 sid rest Hs0 Hs31)
+      by (cbn [pt_frame pt_buf pt_count]; auto; intros; discriminate).
+    change (4 =? 0) with false. cbv iota. cbn [pt_frame]. reflexivity.
+Qed.
+
+Lemma model_parse_ld max bs l more :
+  model_parse max bs = POk l ->
+  ld_decode max LdHead (bs ++ more) = LdOut bs more /\ load_frame bs = POk l.
+Proof.
+  unfold model_parse. destruct bs as [|l0 [|l1 [|l2 r]]]; try discriminate.
+  destruct (max <? (l0 * 256 + l1) * 256 + l2) eqn:Emax; [discriminate|].
+  destruct (lenN (l0 :: l1 :: l2 :: r) =? (l0 * 256 + l1) * 256 + l2 + ld_length_adjustment) eqn:El; [|discriminate].
+  apply N.eqb_eq in El. intros H. split; [|exact H].
+  cbn [app ld_decode]. rewrite Emax.
+  change (l0 :: l1 :: l2 :: r ++ more) with ((l0 :: l1 :: l2 :: r) ++ more).
+  unfold ld_data. rewrite <- El, FrameCodecProofs.lenN_app.
+  destruct (lenN (l0 :: l1 :: l2 :: r) + lenN more <? lenN (l0 :: l1 :: l2 :: r)) eqn:E2; [apply N.ltb_lt in E2; lia|].
+  rewrite FrameCodecProofs.takeN_app_exact, FrameCodecProofs.dropN_app_exact. reflexivity.
+Qed.
+
+Lemma model_parse_max_mono max1 max2 bs l :
+  model_parse max1 bs = POk l -> max1 <= max2 -> model_parse max2 bs = POk l.
+Proof.
+  unfold model_parse. destruct bs as [|l0 [|l1 [|l2 r]]]; try discriminate.
+  destruct (max1 <? _) eqn:E1; [discriminate|]. apply N.ltb_ge in E1. intros H Hle.
+  destruct (max2 <? _) eqn:E2; [apply N.ltb_lt in E2; lia|]. exact H.
+Qed.
+
+(* the number of CONTINUATION frames the encoder needs for [f] under the limit [smax] *)
+Definition continuations_needed (smax : N) (f : frame) : N :=
+  match f with
+  | FHeaders sid _ _ block =>
+      if smax <? lenN block
+      then N.of_nat (length (cont_frames (S (length (dropN smax block))) smax sid (dropN smax block)))
+      else 0
+  | FPushPromise sid _ _ block =>
+      if smax - 4 <? lenN block
+      then N.of_nat (length (cont_frames (S (length (dropN (smax - 4) block))) smax sid (dropN (smax - 4) block)))
+      else 0
+  | _ => 0
+  end.
+
+(* C12, serialise-then-parse inside the model: what Encoder::buffer / unset_frame emit for [f] under the
+   sender's limit [smax], fed to the reader (receive limit [rmax] >= smax, raw header blocks), comes out
+   as exactly one event carrying [f] -- for CONTINUATION runs as long as the receiver's
+   CONTINUATION-flood limit is not exceeded. *)
+Theorem C12_roundtrip_reader : forall smax rmax hls f,
+  42 <= smax -> smax <= MAX_MAX_FRAME_SIZE -> smax <= rmax ->
+  frame_wf smax f = true -> pp_block_nonempty f = true ->
+  continuations_needed smax f <= calc_max_continuation_frames hls rmax + 1 ->
+  exists bs,
+    encode smax f = EOk bs /\
+    map raw_event_frame (snd (feed hp_raw (rinit [] rmax hls) bs)) = [Some f].
+Proof.
+  intros smax rmax hls f H42 Hmax Hr Hwf Hpp Hcont.
+  pose proof Hmax as Hmax'. unfold MAX_MAX_FRAME_SIZE in Hmax'.
+  assert (Hsingle : single_frame smax f = true ->
+     exists bs, encode smax f = EOk bs /\ map raw_event_frame (snd (feed hp_raw (rinit [] rmax hls) bs)) = [Some f]).
+  { intros Hs. destruct (C12_roundtrip smax f H42 Hmax Hwf Hs) as (bs & He & _ & Hm). specialize (Hm Hpp).
+    exists bs. split; [exact He|].
+    apply (model_parse_max_mono smax rmax) in Hm; [|exact Hr].
+    destruct (model_parse_ld rmax bs _ [] Hm) as [Hld Hlf]. rewrite app_nil_r in Hld.
+    rewrite feed_run, run_unfold.
+    unfold with_buf, set_core, rinit. cbn [r_buf r_ld r_max_frame r_max_hls r_max_cont r_partial r_hs r_dead app].
+    rewrite Hld. unfold decode_frame.
+    assert (H9 : exists h p, parse_head bs = Some (h, p)).
+    { unfold load_frame in Hlf. destruct (parse_head bs) as [[h p]|]; [eauto | discriminate]. }
+    destruct H9 as (h & p & Hph). rewrite Hph. cbn [andb]. rewrite Hlf.
+    assert (Hfin : forall (st : rstate (list N)), r_dead st = false -> r_ld st = LdHead -> r_buf st = [] -> drain hp_raw st = (set_core st [] LdHead (r_partial st) (r_hs st) false, [])).
+    { intros st Hd Hl Hb. rewrite run_unfold, Hd, Hl, Hb. reflexivity. }
+    destruct (is_header_frame f) eqn:Eh.
+    - cbn [hp_raw hp_load hp_begin app hpack_verdict].
+      assert (Heh : has_bit (frame_flags f) headers_END_HEADERS = true).
+      { destruct f; try discriminate; cbn [frame_wf] in Hwf; split_andb; boolprops; cbn [frame_flags];
+          unfold headers_END_HEADERS, headers_END_STREAM in *.
+        - match goal with H : _ \/ _ |- _ => destruct H as [H|H]; apply N.eqb_eq in H; subst; reflexivity end.
+        - subst. reflexivity. }
+      rewrite Heh. rewrite Hfin by reflexivity. cbn [snd map raw_event_frame].
+      destruct f; try discriminate; reflexivity.
+    - rewrite Hfin by reflexivity. cbn [snd map raw_event_frame]. reflexivity. }
+  destruct (single_frame smax f) eqn:Es; [apply Hsingle; reflexivity|]. clear Hsingle.
+  assert (Hfin : forall (st : rstate (list N)), r_dead st = false -> r_ld st = LdHead -> r_buf st = [] ->
+            snd (drain hp_raw st) = []).
+  { intros st Hd Hl Hb. rewrite run_unfold, Hd, Hl, Hb. reflexivity. }
+  destruct f as [sid flags pad data | sid flags dep block | sid dep | sid flags promised block | s
+                 | ack payload | last code debug | sid inc | sid code]; try discriminate.
+  - (* HEADERS + CONTINUATION *)
+    cbn [single_frame] in Es. apply N.leb_gt in Es.
+    cbn [frame_wf] in Hwf. unfold sid_ok in Hwf. split_andb. boolprops. destruct dep; [discriminate|].
+    match goal with H : sid <> 0 |- _ => rename H into Hs0 end.
+    assert (Hfl : flags = 4 \/ flags = 5).
+    { unfold headers_END_HEADERS, headers_END_STREAM in *.
+      match goal with H : _ \/ _ |- _ => destruct H as [H|H]; apply N.eqb_eq in H; lia end. }
+    cbn [continuations_needed] in Hcont.
+    assert (E1 : (smax <? lenN block) = true) by (apply N.ltb_lt; lia). rewrite E1 in Hcont.
+    cbn [encode]. unfold headers_encode, header_block_encode, HEADER_LEN, kind_headers, headers_END_HEADERS.
+    assert (Hb4 : has_bit flags 4 = true) by (destruct Hfl; subst flags; reflexivity). rewrite Hb4.
+    destruct (smax + 9 <? 9) eqn:E9; [apply N.ltb_lt in E9; lia|].
+    rewrite WriteBufProofs.lenN_nil.
+    destruct (smax + 9 - 9 <? 0) eqn:E0; [apply N.ltb_lt in E0; lia|].
+    replace (smax + 9 - 9 - 0) with smax by lia. rewrite E1.
+    assert (Hlt : lenN (takeN smax block) = smax) by (rewrite FrameCodecProofs.lenN_takeN; lia).
+    rewrite Hlt. replace (0 + smax) with smax by lia.
+    destruct (16777216 <=? smax) eqn:E2; [apply N.leb_le in E2; lia|].
+    cbn [with_continuations app].
+    set (rest := dropN smax block) in *.
+    assert (Hfuel : (length rest < S (length rest))%nat) by lia.
+    rewrite (continuations_encode_frames smax sid ltac:(lia) Hmax _ _ Hfuel).
+    eexists. split; [reflexivity|].
+    rewrite feed_run. unfold with_buf, set_core, rinit.
+    cbn [r_buf r_ld r_max_frame r_max_hls r_max_cont r_partial r_hs r_dead app].
+    rewrite <- Hlt at 1.
+    match goal with |- context [drain hp_raw ?st0] => set (st := st0) end.
+    rewrite (drain_one_frame hp_raw st 1 (flags - 4) sid (takeN smax block) _ eq_refl eq_refl eq_refl)
+      by (unfold st; cbn [r_max_frame]; lia).
+    unfold st at 1 2 3 4. cbn [r_max_hls r_max_cont r_partial r_hs].
+    change 1 with kind_headers at 1.
+    rewrite (decode_open_headers _ _ [] (flags - 4) sid (takeN smax block) Hs0 ltac:(lia))
+      by (destruct Hfl; subst flags; [left | right]; reflexivity).
+    match goal with |- context [drain hp_raw ?st1] => set (st' := st1) end.
+    rewrite (drain_continuations smax sid ltac:(lia) Hmax Hs0 ltac:(lia) (S (length rest)) rest st'
+               (FHeaders sid (flags - 4) None []) (takeN smax block) 0 []
+               Hfuel ltac:(unfold st', st; cbn [r_max_frame set_core]; lia) eq_refl eq_refl
+               ltac:(unfold st', st; cbn [r_buf set_core]; rewrite app_nil_r; reflexivity) eq_refl eq_refl eq_refl
+               ltac:(unfold st', st; cbn [r_max_cont set_core]; lia)).
+    match goal with |- context [drain hp_raw ?st2] => pose proof (Hfin st2 eq_refl eq_refl eq_refl) as Hf2;
+      destruct (drain hp_raw st2) as [s2 e2] end.
+    cbn [snd] in *. subst e2. cbn [map raw_event_frame set_end_headers].
+    unfold rest. rewrite FrameCodecProofs.takeN_dropN.
+    destruct Hfl; subst flags; reflexivity.
+  - (* PUSH_PROMISE + CONTINUATION *)
+    cbn [single_frame] in Es. apply N.leb_gt in Es.
+    cbn [pp_block_nonempty] in Hpp. apply negb_true_iff, N.eqb_neq in Hpp.
+    cbn [frame_wf] in Hwf. unfold sid_ok in Hwf. split_andb. boolprops.
+    match goal with H : sid <> 0 |- _ => rename H into Hs0 end.
+    unfold headers_END_HEADERS in *. subst flags.
+    cbn [continuations_needed] in Hcont.
+    assert (E1 : (smax - 4 <? lenN block) = true) by (apply N.ltb_lt; lia). rewrite E1 in Hcont.
+    cbn [encode]. unfold push_promise_encode, header_block_encode, HEADER_LEN, kind_push_promise, headers_END_HEADERS.
+    change (has_bit 4 4) with true. cbv iota.
+    destruct (smax + 9 <? 9) eqn:E9; [apply N.ltb_lt in E9; lia|].
+    change (lenN (enc_u32 promised)) with 4.
+    destruct (smax + 9 - 9 <? 4) eqn:E0; [apply N.ltb_lt in E0; lia|].
+    replace (smax + 9 - 9 - 4) with (smax - 4) by lia. rewrite E1.
+    assert (Hlt : lenN (takeN (smax - 4) block) = smax - 4) by (rewrite FrameCodecProofs.lenN_takeN; lia).
+    rewrite Hlt. replace (4 + (smax - 4)) with smax by lia.
+    destruct (16777216 <=? smax) eqn:E2; [apply N.leb_le in E2; lia|].
+    cbn [with_continuations]. change (4 - 4) with 0.
+    set (rest := dropN (smax - 4) block) in *.
+    set (part := takeN (smax - 4) block) in *.
+    assert (Hfuel : (length rest < S (length rest))%nat) by lia.
+    rewrite (continuations_encode_frames smax sid ltac:(lia) Hmax _ _ Hfuel).
+    eexists. split; [reflexivity|].
+    assert (Hpl : lenN (enc_u32 promised ++ part) = smax).
+    { rewrite FrameCodecProofs.lenN_app, Hlt. change (lenN (enc_u32 promised)) with 4. lia. }
+    assert (Hpne : lenN part <> 0) by lia.
+    rewrite feed_run. unfold with_buf, set_core, rinit.
+    cbn [r_buf r_ld r_max_frame r_max_hls r_max_cont r_partial r_hs r_dead app].
+    rewrite <- Hpl at 1.
+    match goal with |- context [drain hp_raw ?st0] => set (st := st0) end.
+    rewrite (drain_one_frame hp_raw st 5 0 sid (enc_u32 promised ++ part) _ eq_refl eq_refl eq_refl)
+      by (unfold st; cbn [r_max_frame]; lia).
+    unfold st at 1 2 3 4. cbn [r_max_hls r_max_cont r_partial r_hs].
+    change 5 with kind_push_promise at 1.
+    rewrite (decode_open_push_promise _ _ [] sid promised part Hs0 ltac:(lia) ltac:(lia) Hpne).
+    match goal with |- context [drain hp_raw ?st1] => set (st' := st1) end.
+    rewrite (drain_continuations smax sid ltac:(lia) Hmax Hs0 ltac:(lia) (S (length rest)) rest st'
+               (FPushPromise sid 0 promised []) part 0 []
+               Hfuel ltac:(unfold st', st; cbn [r_max_frame set_core]; lia) eq_refl eq_refl
+               ltac:(unfold st', st; cbn [r_buf set_core]; rewrite app_nil_r; reflexivity) eq_refl eq_refl eq_refl
+               ltac:(unfold st', st; cbn [r_max_cont set_core]; lia)).
+    match goal with |- context [drain hp_raw ?st2] => pose proof (Hfin st2 eq_refl eq_refl eq_refl) as Hf2;
+      destruct (drain hp_raw st2) as [s2 e2] end.
+    cbn [snd] in *. subst e2. cbn [map raw_event_frame set_end_headers].
+    unfold rest, part. rewrite FrameCodecProofs.takeN_dropN. reflexivity.
+Qed.
+
+Example C12_roundtrip_reader_example :
+  let f := FPushPromise 1 headers_END_HEADERS 2 (repeat 66 150) in
+  frame_wf 64 f = true /\ pp_block_nonempty f = true /\
+  continuations_needed 64 f = 2 /\ calc_max_continuation_frames 16777216 16384 = 1280.
+Proof. vm_compute. repeat split; reflexivity. Qed.
